@@ -306,6 +306,18 @@ func (w *World) ParamValue(key string, wellFormed bool) []byte {
 		return jsonOf(uint64(r.PickI64(1, 2, 3, 4, 7, 8)))
 	case "auth/FeeMultipliers":
 		fm := authTypes.FeeMultipliers{Default: r.PickI64(1, 1, 2, 3)}
+		if r.Chance(35) {
+			// several entries, in no particular order (nothing sorts or validates a governance-set list)
+			keys := []string{"send", "stake_validator", "unjail", "change_param", "dao_tranfer", "begin_unstaking_validator", "upgrade"}
+			for i := len(keys) - 1; i > 0; i-- {
+				j := r.Intn(i + 1)
+				keys[i], keys[j] = keys[j], keys[i]
+			}
+			for _, k := range keys[:2+r.Intn(4)] {
+				fm.FeeMultis = append(fm.FeeMultis, authTypes.FeeMultiplier{Key: k, Multiplier: r.PickI64(1, 2, 3, 5, 7)})
+			}
+			return jsonOf(fm)
+		}
 		if r.Bool() {
 			fm.FeeMultis = []authTypes.FeeMultiplier{{Key: []string{"send", "stake_validator", "unjail", "change_param"}[r.Intn(4)], Multiplier: r.PickI64(1, 2, 5)}}
 			if w.P.HugeFeeMultipliers && r.Chance(40) {
@@ -318,7 +330,10 @@ func (w *World) ParamValue(key string, wellFormed bool) []byte {
 	case "pos/UnstakingTime":
 		return jsonOf(time.Duration(r.PickI64(60, 600, 3600, 86400)) * time.Second)
 	case "pos/MaxValidators":
-		return jsonOf(uint64(r.PickI64(1, 2, 3, 5, 8, 100000)))
+		if r.Chance(12) {
+			return jsonOf([]uint64{1 << 63, 1<<63 + 5, ^uint64(0), 1<<64 - 2}[r.Intn(4)]) // "no limit" spelled as a huge number
+		}
+		return jsonOf(uint64(r.PickI64(1, 2, 3, 5, 8, 100000, 65536, 65537, 1<<32, 1<<32+2)))
 	case "pos/StakeDenom":
 		return jsonOf(Denom)
 	case "pos/StakeMinimum":
@@ -557,6 +572,57 @@ func (w *World) Hostile(s *TxSpec, cp CurParams) string {
 	other := w.All[w.R.Intn(len(w.All))]
 	for other == victim {
 		other = w.All[w.R.Intn(len(w.All))]
+	}
+	if w.R.Chance(18) {
+		// the signed transaction is altered in transit in a way a sloppy canonicalisation might not notice
+		switch w.R.Intn(4) {
+		case 0:
+			s.Mutate = func(tx *authTypes.StdTx) {
+				ext := func(a sdk.Address) sdk.Address {
+					if len(a) > 20 {
+						return append(sdk.Address{}, a[:20]...)
+					}
+					return append(append(sdk.Address{}, a...), 0x01)
+				}
+				switch m := tx.Msg.(type) {
+				case posTypes.MsgSend:
+					m.ToAddress = ext(m.ToAddress)
+					tx.Msg = m
+				case govTypes.MsgDAOTransfer:
+					m.ToAddress = ext(m.ToAddress)
+					tx.Msg = m
+				default:
+					tx.Memo += "\t"
+				}
+			}
+			return "recipient-length-changed-after-signing"
+		case 1:
+			s.Mutate = func(tx *authTypes.StdTx) {
+				if w.R.Bool() {
+					tx.Memo += " "
+				} else {
+					tx.Memo = "\n" + tx.Memo
+				}
+			}
+			return "memo-whitespace-after-signing"
+		case 2:
+			if w.P.SecondDenom {
+				// a fee in two denominations, the coins swapped after signing
+				s.FeeRaw = sdk.NewCoins(sdk.NewInt64Coin(SecondDenom, 1+w.R.Int63n(3)), sdk.NewInt64Coin(Denom, cp.RequiredFee(s.Msg.Type())))
+				s.Mutate = func(tx *authTypes.StdTx) {
+					if len(tx.Fee) == 2 {
+						tx.Fee = sdk.Coins{tx.Fee[1], tx.Fee[0]}
+					}
+				}
+				return "fee-coins-swapped-after-signing"
+			}
+		case 3:
+			if w.P.SecondDenom {
+				// honestly signed, but part of the fee is in a denomination the signer may not hold
+				s.FeeRaw = sdk.NewCoins(sdk.NewInt64Coin(SecondDenom, 1+w.R.Int63n(2000000)), sdk.NewInt64Coin(Denom, cp.RequiredFee(s.Msg.Type())))
+				return "fee-with-second-denomination"
+			}
+		}
 	}
 	switch w.R.Intn(16) {
 	case 0: // attacker signs, attacker key supplied
